@@ -17,6 +17,7 @@ type ValProfile struct {
 	MaxChildElems int    // initial element count of generated containers
 	KeySpace      int    // size of the integer key space for maps
 	BigKeys       bool   // allow keys around / above the key inline limit
+	ManyTypes     bool   // type infos drawn from hundreds of ids instead of 7
 	CompositeFlip bool   // SetType may turn a simple-typed map into a composite-typed one and back (compact form <-> plain form)
 }
 
@@ -201,6 +202,12 @@ func (w *World) genContainer(depth int, addr atree.Address) (*Node, error) {
 	n, err := w.NewRootMap(addr, w.newTI(w.prof.Composite), nil)
 	if err != nil {
 		return nil, err
+	}
+	if n.TI.Composite && r.Intn(3) == 0 {
+		// composite values with many fields (the shared key / digest lists of the compact form grow past the sizes
+		// that fit the encoder's scratch space)
+		cnt = 7 + r.Intn(14)
+		w.stats.Extra["composite-maps-with-7-to-20-fields"]++
 	}
 	w.logOp("  (new child %s with %d elements)", n, cnt)
 	w.traceOn = false
